@@ -63,6 +63,11 @@ def aux_status(fn_result):
     return {k: ("proved" if v else "unproved") for k, v in out.items()}
 
 
+def _loops_aligned(base_shape, cur_shape):
+    """Every loop of the current code is, by ordinal, the loop (same kind, same head) the sidecar specification was written for."""
+    return len(cur_shape) <= len(base_shape) and all(c == b for c, b in zip(cur_shape, base_shape))
+
+
 def main(argv=None):
     ap = argparse.ArgumentParser()
     ap.add_argument("property")
@@ -120,10 +125,12 @@ def main(argv=None):
             # undecided, never a violation by itself: a construct outside the engine's subset / a hard timeout falls back to the bounded stand-in
             degraded.append({"function": key, "reason": f"{r['status']}: {r.get('detail', '')[:200]} - bounded stand-in only"})
             continue
-        if base.get("shape") is not None and r.get("shape") is not None and base["shape"] != r["shape"]:
+        if base.get("shape") is not None and r.get("shape") is not None and not _loops_aligned(base["shape"], r["shape"]):
             # the loop statements of the function are not the ones the sidecar loop specifications (keyed by loop ordinal)
-            # were written for - a comprehension became a loop, a loop was split or merged.  The contract's loop anchors no
-            # longer match the code, so whatever fails to prove now is UNDECIDED, not refuted: the bounded stand-in decides.
+            # were written for - a comprehension became a loop, a loop was split, merged or re-headed.  The contract's loop
+            # anchors no longer match the code, so whatever fails to prove now is UNDECIDED, not refuted: the bounded stand-in
+            # decides.  (Loops that only DISAPPEARED from the end of the list - turned into comprehensions, which the generator
+            # encodes exactly - leave every remaining loop with its own specification: the ordinary rules apply.)
             open_now = [k for k, st in list(cl.items()) + list(aux_status(r).items()) if st != "proved"]
             if open_now:
                 degraded.append({"function": key, "reason": f"restructured: loop statements {r['shape']} differ from the baseline's {base['shape']}; "
